@@ -252,8 +252,15 @@ impl NativeFunctionCall {
             return Ok(self.call_list_increment_operation(params));
         }
 
-        let v1 = params[0].clone().into_any().downcast::<Value>().unwrap();
-        let v2 = params[1].clone().into_any().downcast::<Value>().unwrap();
+        // The other operand of a list may be any object that ended up on the
+        // evaluation stack (glue, a tag, ...), not only a value
+        let as_value = |obj: &Rc<dyn RTObject>| {
+            obj.clone().into_any().downcast::<Value>().map_err(|_| {
+                StoryError::InvalidStoryState(format!("RTObject of type Value expected: {}", obj))
+            })
+        };
+        let v1 = as_value(&params[0])?;
+        let v2 = as_value(&params[1])?;
 
         // And/or with any other type requires coercion to bool
         if (self.op == Op::And || self.op == Op::Or)
